@@ -269,6 +269,12 @@ func (t *textReader) nextBeforeTypeAnnotations() (bool, error) {
 			t.valueType = SymbolType
 			t.state = t.stateAfterValue()
 		} else {
+			if tok == tokenSymbol && val == "$ion_1_0" && t.ctx.peek() == ctxAtTopLevel && len(t.annotations) == 0 {
+				// An unannotated, unquoted top-level $ion_1_0 is a version marker, not a value:
+				// it resets the symbol table, just like the binary version marker does.
+				t.lst = V1SystemSymbolTable
+				return false, nil
+			}
 			if err := t.onSymbol(val, tok, ws); err != nil {
 				return false, err
 			}
